@@ -26,6 +26,7 @@ type space struct {
 	fromNRGB func(color.NRGBA) (linear.RGB, float32)
 	fromRGBA func(color.RGBA) (linear.RGB, float32)
 	fromEnc  func(color.Color) (linear.RGB, float32)
+	fromLin  func(color.Color) (linear.RGB, float32)
 	linCol   func(color.Color) color.RGBA64
 	encCol   func(color.Color) color.RGBA64
 	to8      func(float32) uint8
@@ -37,21 +38,31 @@ var spaces = []space{
 		func(c color.NRGBA) (linear.RGB, float32) { x, a := srgb.ColorFromNRGBA(c); return x.RGB, a },
 		func(c color.RGBA) (linear.RGB, float32) { x, a := srgb.ColorFromRGBA(c); return x.RGB, a },
 		func(c color.Color) (linear.RGB, float32) { x, a := srgb.ColorFromEncodedColor(c); return x.RGB, a },
+		func(c color.Color) (linear.RGB, float32) { x, a := srgb.ColorFromLinearColor(c); return x.RGB, a },
 		srgb.LineariseColor, srgb.EncodeColor, srgb.To8Bit, srgb.To16Bit},
 	{"adobergb", adobergb.From8Bit, adobergb.From16Bit,
 		func(c color.NRGBA) (linear.RGB, float32) { x, a := adobergb.ColorFromNRGBA(c); return x.RGB, a },
 		func(c color.RGBA) (linear.RGB, float32) { x, a := adobergb.ColorFromRGBA(c); return x.RGB, a },
 		func(c color.Color) (linear.RGB, float32) { x, a := adobergb.ColorFromEncodedColor(c); return x.RGB, a },
+		func(c color.Color) (linear.RGB, float32) { x, a := adobergb.ColorFromLinearColor(c); return x.RGB, a },
 		adobergb.LineariseColor, adobergb.EncodeColor, adobergb.To8Bit, adobergb.To16Bit},
 	{"prophotorgb", prophotorgb.From8Bit, prophotorgb.From16Bit,
 		func(c color.NRGBA) (linear.RGB, float32) { x, a := prophotorgb.ColorFromNRGBA(c); return x.RGB, a },
 		func(c color.RGBA) (linear.RGB, float32) { x, a := prophotorgb.ColorFromRGBA(c); return x.RGB, a },
-		func(c color.Color) (linear.RGB, float32) { x, a := prophotorgb.ColorFromEncodedColor(c); return x.RGB, a },
+		func(c color.Color) (linear.RGB, float32) {
+			x, a := prophotorgb.ColorFromEncodedColor(c)
+			return x.RGB, a
+		},
+		func(c color.Color) (linear.RGB, float32) {
+			x, a := prophotorgb.ColorFromLinearColor(c)
+			return x.RGB, a
+		},
 		prophotorgb.LineariseColor, prophotorgb.EncodeColor, prophotorgb.To8Bit, prophotorgb.To16Bit},
 	{"displayp3", nil, nil,
 		func(c color.NRGBA) (linear.RGB, float32) { x, a := displayp3.ColorFromNRGBA(c); return x.RGB, a },
 		func(c color.RGBA) (linear.RGB, float32) { x, a := displayp3.ColorFromRGBA(c); return x.RGB, a },
 		func(c color.Color) (linear.RGB, float32) { x, a := displayp3.ColorFromEncodedColor(c); return x.RGB, a },
+		func(c color.Color) (linear.RGB, float32) { x, a := displayp3.ColorFromLinearColor(c); return x.RGB, a },
 		displayp3.LineariseColor, displayp3.EncodeColor, nil, nil},
 }
 
